@@ -108,6 +108,19 @@ def fmtInt (i : Int) : String := toString i
 
 def joinSlash (l : List String) : String := "/".intercalate l
 
+/-! ### strconv.FormatInt(n, 4) -/
+
+/-- base-4 digits, most significant first, no leading zeros (`strconv.FormatInt(n, 4)`), with fuel -/
+def digits4Aux : Nat → Nat → List Nat
+  | 0, _ => []
+  | fuel + 1, n => if n < 4 then [n] else digits4Aux fuel (n / 4) ++ [n % 4]
+
+def digits4 (n : Nat) : List Nat := digits4Aux 64 n
+
+/-- the characters of `strconv.FormatInt(v, 4)` as digit values; the sign `-` of a negative number is −1 -/
+def fmtBase4 (v : Int) : List Int :=
+  if v < 0 then (-1) :: (digits4 (-v).toNat).map Int.ofNat else (digits4 v.toNat).map Int.ofNat
+
 /-! ### extended spatial IDs -/
 
 structure Ext where
